@@ -18,7 +18,12 @@ use std::any::TypeId;
 use std::collections::HashMap;
 use std::fmt;
 use std::marker::PhantomData;
+#[cfg(not(feature = "verif-shuttle"))]
 use std::sync::{Arc, Mutex, MutexGuard};
+#[cfg(feature = "verif-shuttle")]
+use std::sync::Arc;
+#[cfg(feature = "verif-shuttle")]
+use shuttle::sync::{Mutex, MutexGuard};
 
 use ghost_cell::GhostToken;
 
@@ -218,6 +223,8 @@ impl<'brand> Context<'brand> {
         let new_bound = Bound::Product(prod_l.inner.shallow_clone(), prod_r.inner.shallow_clone());
 
         lock.bind(existing_root, new_bound).map_err(|e| {
+            #[cfg(feature = "verif-hooks")]
+            crate::verif::probe(11);
             let new_bound = lock.alloc_bound(e.new);
             drop(lock);
             Error::Bind {
@@ -239,6 +246,8 @@ impl<'brand> Context<'brand> {
     ) -> Result<(), Error> {
         let mut lock = self.lock();
         lock.unify(&ty1.inner, &ty2.inner).map_err(|e| {
+            #[cfg(feature = "verif-hooks")]
+            crate::verif::probe(11);
             let new_bound = lock.alloc_bound(e.new);
             drop(lock);
             Error::Bind {
@@ -454,6 +463,8 @@ impl<'brand> WithGhostToken<'brand, ContextInner<'brand>> {
                 // It also gives the user access to more information about the type,
                 // prior to finalization.
                 if let Some((data1, data2)) = self.complete_pair_data(y1, y2) {
+                    #[cfg(feature = "verif-hooks")]
+                    crate::verif::probe(2);
                     self.reassign_non_complete(
                         existing,
                         Bound::Complete(if let Bound::Sum(..) = existing_bound {
